@@ -15,7 +15,11 @@ EXPLANATION = (
     "n_K their number) and c̄ = 1 - c for every child replaced by its negation (induction over the acyclic model), the "
     "returned (sign', value', children') must satisfy  sign'·Σchildren' - value'  ≡  -(sign·Σchildren - value) - 1  as "
     "linear forms: that is the integer complement ¬(e >= v) ⇔ -e >= 1 - v. Typestate: on every return path sign' = +1 or "
-    "the path condition implies there is no compound child. Id rule: variable = None if generated_id else self.variable. "
+    "the path condition implies there is no compound child (claimed over boolean leaves, as the property states). Paths whose "
+    "condition or children the linear argument cannot follow (value-dependent guards, guards on the atoms' declared bounds, unit "
+    "members AtLeast(1,[x]) per atom, a group of the atoms) are decided by enumeration of abstract states: <= 2 atom children "
+    "with declared bounds (0,1) / (0,2) / (-1,2) and every value in them, <= 2 compound children in {0,1}, value in [-3,4]. "
+    "Id rule: variable = None if generated_id else self.variable. "
     "Not(p) ≡ negate(All(p) if atom else p) by contract equivalence."
 )
 TRUSTED = ["lowering/canonicaliser (sa/terms.py)", "constructor projections AtLeast(value=v,sign=s,propositions=P).value = v, .sign = s, "
